@@ -159,12 +159,27 @@ func awaitPandoraTermination(pandora *engine.Engine, gracefulShutdown func(), er
 			log.Fatal("Unexpected signal received. Quiting.", zap.Stringer("signal", sig))
 		}
 
+		timeout := time.After(interruptTimeout)
 		select {
-		case <-time.After(interruptTimeout):
+		case <-timeout:
 			log.Fatal("Interrupt timeout exceeded")
 		case sig := <-sigs:
 			log.Fatal("Another signal received. Quiting.", zap.Stringer("signal", sig))
 		case err := <-errs:
+			// Engine run returns as soon as it is cancelled, but its pools are still finishing:
+			// let aggregators write out and close results before the process exits.
+			awaited := make(chan struct{})
+			go func() {
+				pandora.Wait()
+				close(awaited)
+			}()
+			select {
+			case <-awaited:
+			case <-timeout:
+				log.Error("Interrupt timeout exceeded while awaiting started tasks")
+			case sig := <-sigs:
+				log.Error("Another signal received while awaiting started tasks", zap.Stringer("signal", sig))
+			}
 			log.Fatal("Engine interrupted", zap.Error(err))
 		}
 
